@@ -30,6 +30,7 @@ def dispatch (op : String) (args : List String) : String :=
   | "line" => ChessOps.handleLine args
   | "incheck" => ChessOps.handleInCheck args
   | "terminal" => ChessOps.handleTerminal args
+  | "anylegal" => ChessOps.handleAnyLegal args
   | "hash" => ChessOps.handleHash args
   | "xor" => ChessOps.handleXor args
   | "fen" => ChessOps.handleFen args
@@ -52,6 +53,7 @@ def dispatch (op : String) (args : List String) : String :=
   | "spec:succ" => SpecOps.handleSucc args
   | "spec:incheck" => SpecOps.handleInCheck args
   | "spec:terminal" => SpecOps.handleTerminal args
+  | "spec:anylegal" => SpecOps.handleAnyLegal args
   | "spec:san" => SpecOps.handleSan args
   | "spec:nq" => SpecOps.handleNq args
   | "spec:perft" => SpecOps.handlePerft args
